@@ -1450,10 +1450,72 @@ def run_loader_histories(ctx):
     shutil.rmtree(d, ignore_errors=True)
 
 
+CL_SCHEMA = ("<schema><sectiontype name='s'><key name='port' "
+             "datatype='integer' default='80'/><multikey name='tag'/>"
+             "</sectiontype><key name='level' datatype='integer' "
+             "default='1'/><multisection type='s' name='*' attribute='ss'/>"
+             "</schema>")
+CL_OPTIONS = ["level=7", "s1/port=9090", "s1/tag=a", "s1/tag=b"]
+CL_REFUSED = ["<s s1>\n port x\n</s>\n", "<s s1>\n</s>\n</s>\n",
+              "level 1\nlevel 2\n<s s1/>\n", "<s s1>\n nosuch 1\n</s>\n",
+              "<s s1>\n port 1\n", "<s s2/>\n", "%include /nonexistent/zcv\n",
+              "<s s1>\n tag $nosuch\n</s>\n"]
+CL_GOOD = "<s s1>\n tag t\n</s>\n<s s2/>\n"
+
+
+def run_cmdline_histories(ctx):
+    """One command-line loader, with its options, reads texts that are
+    refused at various points and then a good one: the good one comes out
+    as it does on a loader that has read nothing before."""
+    import itertools
+    import ZConfig
+    from ZConfig.cmdline import ExtendedConfigLoader
+    res = ctx.res
+    schema = ZConfig.loadSchemaFile(io.StringIO(CL_SCHEMA))
+
+    def make():
+        ld = ExtendedConfigLoader(schema)
+        for o in CL_OPTIONS:
+            ld.addOption(o)
+        return ld
+
+    def load(ld, text):
+        try:
+            cfg, _ = ld.loadFile(io.StringIO(text))
+        except ZConfig.ConfigurationError as e:
+            return ("reject", type(e).__name__)
+        except Exception as e:  # noqa
+            return ("raised", type(e).__name__, str(e)[:80])
+        return ("ok", cfg.level, [(x.getSectionName(), x.port, list(x.tag))
+                                  for x in cfg.ss])
+    want = load(make(), CL_GOOD)
+    hist = [(t,) for t in CL_REFUSED] + \
+        list(itertools.permutations(CL_REFUSED[:4], 2)) + [tuple(CL_REFUSED)]
+    for hi, h in enumerate(hist):
+        if not ctx.mine(hi):
+            continue
+        ld = make()
+        firsts = [load(ld, t) for t in h]
+        got = load(ld, CL_GOOD)
+        again = load(ld, CL_GOOD)
+        res.evaluations += 1
+        res.count("cmdline_loader_histories")
+        res.sig("clh|%d|%s" % (len(h), firsts[0][0]))
+        if got != want or again != want or want[0] != "ok":
+            res.violate(
+                "command-line-loader-changed-by-a-refused-load",
+                {"family": "cmdline-history", "refused": list(h)},
+                list(want), [list(got), list(again)],
+                detail="options %r; after %r (%r) the good text gives %r, "
+                "a fresh loader %r" % (CL_OPTIONS, h, firsts, got, want),
+                vsig="clh|%s" % got[0])
+
+
 def run_shard(ctx):
     res = ctx.res
     res.count("unjudged", 0)
     run_loader_histories(ctx)
+    run_cmdline_histories(ctx)
     scs = scenarios(ctx)
     with Machinery(ctx) as mach:
         for si, sc in enumerate(scs):
@@ -1484,6 +1546,9 @@ def finalize(m, tier):
 
 
 def replay(ctx, case):
+    if case.get("family") == "cmdline-history":
+        ctx.mine = lambda i: True
+        return run_cmdline_histories(ctx)
     if case.get("family") == "loader-history":
         ctx.mine = lambda i: True
         return run_loader_histories(ctx)
